@@ -32,13 +32,14 @@ Definition validate_optional_binary_length (o : option bytes) : outcome unit :=
 Definition validate_optional_integer_non_zero (o : option N) : outcome unit :=
   match o with Some v => if v =? 0 then vfail else Ok tt | None => Ok tt end.
 
-(* validate_user_properties 48-57: sic — the NAME is checked twice, the value never *)
+(* validate_user_properties 48-57 (after fix a688126 of D2: the second check is on the VALUE;
+   before the fix the name was checked twice) *)
 Fixpoint validate_user_properties_list (l : list user_property) : outcome unit :=
   match l with
   | [] => Ok tt
   | p :: r =>
       do _ <- validate_string_length (up_name p);
-      do _ <- validate_string_length (up_name p);
+      do _ <- validate_string_length (up_value p);
       validate_user_properties_list r
   end.
 Definition validate_user_properties (o : option (list user_property)) : outcome unit :=
@@ -112,12 +113,19 @@ Definition validate_publish_packet_outbound (p : publish) : outcome unit :=
           validate_optional_string_length (pub_content_type p)
       end.
 
-(* mqtt/subscribe.rs:259-276 *)
+(* mqtt/subscribe.rs (after fix 18f2f26 of the static half of D4: the identifier range check;
+   MAXIMUM_VARIABLE_LENGTH_INTEGER = 268435455) *)
 Definition validate_subscribe_packet_outbound (s : subscribe) : outcome unit :=
   if negb (s_pid s =? 0) then vfail
   else match s_subs s with
   | [] => vfail
-  | _ => validate_user_properties (s_up s)
+  | _ =>
+      do _ <- (match s_subid s with
+               | Some subscription_identifier =>
+                   if (subscription_identifier =? 0) || (VLI_MAX <? subscription_identifier) then vfail else Ok tt
+               | None => Ok tt
+               end);
+      validate_user_properties (s_up s)
   end.
 
 (* mqtt/unsubscribe.rs:197-215 *)
@@ -202,8 +210,8 @@ Fixpoint validate_subscriptions (st : option settings) (l : list subscription) :
       if negb ok then vfail else validate_subscriptions st rest
   end.
 
-(* mqtt/subscribe.rs:278-305: sic — neither subscription_identifiers_available nor the range of the
-   subscription identifier is looked at *)
+(* mqtt/subscribe.rs validate_subscribe_packet_outbound_internal: sic — subscription_identifiers_available
+   is never consulted (dynamic half of D4, known finding) *)
 Definition validate_subscribe_packet_outbound_internal (st : option settings) (s : subscribe) : outcome unit :=
   do _ <- check_packet_size st (Subscribe s) no_resolution;
   if s_pid s =? 0 then vfail
